@@ -55,6 +55,69 @@ def counting_loop(R, fid, h):
                         end = a
         if end is not None:
             return (inits[0], ("i", end, None))
+    return count_down_loop(R, fid, h)
+
+
+def count_down_loop(R, fid, h):
+    """`let mut left = r; while left > 0 { ...; left -= 1 }`: as many iterations as `for _ in 0..r`. A local of the loop's frame
+    that starts at one value, is decremented by exactly 1 once per iteration, has no other write, and whose test against 0
+    (`> 0`, `!= 0`, `0 <`) is the loop's continue condition. Returns (0, start value) or None"""
+    eng = R.eng
+    g = R.g
+    ln = R.loop_nodes(fid, h)
+    outside = set(g.succ) - ln
+    M = eng.loop_cache.get((fid, h), {}).get("M", set())
+    for (root, path) in M:
+        if root[0] != "L" or root[1] != fid or path != ():
+            continue
+        ps = eng.sym_ids.get(("phi", fid, h, root, ()))
+        if ps is None:
+            continue
+        me = (0, ((ps, 1),))
+        decs, other, inits = set(), set(), []
+        for (node, wr, wp, v) in eng.writes_log:
+            if wr != root or wp != ():
+                continue
+            if node not in ln:
+                inits.append(v)
+            elif isinstance(v, tuple) and v and v[0] == "i" and v[1] == (-1, ((ps, 1),)):
+                decs.add(node)
+            elif isinstance(v, tuple) and v and v[0] == "i" and v[1] == me:
+                pass
+            else:
+                other.add(node)
+        if not decs or other or not inits or not all(v[0] == "i" for v in inits) or len(set(v[1] for v in inits)) != 1:
+            continue
+        if g.on_cycle_avoiding((fid, h), avoid_nodes=decs | outside):
+            continue    # an iteration can skip the decrement
+        guarded = False
+        zero = (0, ())
+        for edge, conds in eng.edge_conds.items():
+            if edge[0] not in ln or edge[0][0] != fid or edge[1] not in ln:
+                continue
+            for c in conds:
+                if c[0] == "neq" and c[1] == me and 0 in c[2]:
+                    guarded = True
+                elif c[0] == "bool" and c[1][0] == "cmp":
+                    op, a, b, truth = c[1][1], c[1][2], c[1][3], c[2]
+                    if a == me and b == zero and ((op in ("Gt", "Ne") and truth) or (op in ("Le", "Eq") and not truth)):
+                        guarded = True
+                    elif b == me and a == zero and ((op in ("Lt", "Ne") and truth) or (op in ("Ge", "Eq") and not truth)):
+                        guarded = True
+        # the test must be the only way to stay in the loop: no cycle through the head avoids a "left != 0" edge
+        if guarded:
+            stay = set()
+            for edge, conds in eng.edge_conds.items():
+                if edge[0] in ln and edge[0][0] == fid and edge[1] in ln:
+                    for c in conds:
+                        if (c[0] == "neq" and c[1] == me and 0 in c[2]) or (c[0] == "bool" and c[1][0] == "cmp" and (
+                                (c[1][2] == me and c[1][3] == zero and ((c[1][1] in ("Gt", "Ne") and c[2]) or (c[1][1] in ("Le", "Eq") and not c[2]))) or
+                                (c[1][3] == me and c[1][2] == zero and ((c[1][1] in ("Lt", "Ne") and c[2]) or (c[1][1] in ("Ge", "Eq") and not c[2]))))):
+                            stay.add(edge)
+            # the head's test: the first branch on the counter after the head
+            first = [e for e in stay if e[0] in g.reachable([(fid, h)], avoid_nodes=outside, stop_at=set(x[0] for x in stay))]
+            if first and not g.on_cycle_avoiding((fid, h), avoid_nodes=outside, avoid_edges=first):
+                return (("i", zero, None), inits[0])
     return None
 
 
